@@ -357,40 +357,42 @@ def _spawn_env():
         os.environ["PYTHONPATH"] = ":".join(add + [p for p in pp if p])
 
 
-def _run_jobs(jobs, procs, log):
-    """map _worker over jobs in SPAWNED processes; survives a crashing worker (native crash inside ORT)"""
+def _run_jobs(jobs, procs, log, per_round=1400):
+    """map _worker over jobs in SPAWNED processes, in rounds with fresh pools (a JAX process that has traced hundreds of
+    programs holds gigabytes); survives a crashing worker (native crash inside ORT)"""
     from concurrent.futures import ProcessPoolExecutor
     from concurrent.futures.process import BrokenProcessPool
     from multiprocessing import get_context
     results = [None] * len(jobs)
-    pending = list(range(len(jobs)))
     numerics_off = set()
-    for attempt in range(4):
-        if not pending:
-            break
-        broken = False
-        # workers are recycled: a JAX process that has traced hundreds of programs holds gigabytes
-        with ProcessPoolExecutor(max_workers=procs, mp_context=get_context("spawn"), initializer=_init_worker,
-                                 max_tasks_per_child=120) as ex:
-            futs = {}
-            for i in pending:
-                k, ident, v, num, om = jobs[i]
-                futs[i] = ex.submit(_worker, (k, ident, v, num and i not in numerics_off, om))
-            for i, f in futs.items():
-                try:
-                    results[i] = f.result(timeout=1500)
-                except BrokenProcessPool:
-                    broken = True
-                except Exception as e:  # noqa
-                    results[i] = {"kind": jobs[i][0], "ident": jobs[i][1], "opset": jobs[i][2], "key": f"{jobs[i][0]}#{jobs[i][1]}",
-                                  "status": "harness-error", "error": f"{type(e).__name__}: {str(e)[:200]}"}
-        pending = [i for i in pending if results[i] is None]
-        if broken:
-            log.append(f"worker pool broke on attempt {attempt}; {len(pending)} jobs re-run without numerics")
-            numerics_off.update(pending)
-    for i in pending:
-        results[i] = {"kind": jobs[i][0], "ident": jobs[i][1], "opset": jobs[i][2], "key": f"{jobs[i][0]}#{jobs[i][1]}",
-                      "status": "harness-error", "error": "worker process died repeatedly"}
+
+    def err(i, msg):
+        return {"kind": jobs[i][0], "ident": jobs[i][1], "opset": jobs[i][2], "key": f"{jobs[i][0]}#{jobs[i][1]}",
+                "status": "harness-error", "error": msg}
+    for start in range(0, len(jobs), per_round):
+        pending = list(range(start, min(len(jobs), start + per_round)))
+        for attempt in range(4):
+            if not pending:
+                break
+            broken = False
+            with ProcessPoolExecutor(max_workers=procs, mp_context=get_context("spawn"), initializer=_init_worker) as ex:
+                futs = {}
+                for i in pending:
+                    k, ident, v, num, om = jobs[i]
+                    futs[i] = ex.submit(_worker, (k, ident, v, num and i not in numerics_off, om))
+                for i, f in futs.items():
+                    try:
+                        results[i] = f.result(timeout=1500)
+                    except BrokenProcessPool:
+                        broken = True
+                    except Exception as e:  # noqa
+                        results[i] = err(i, f"{type(e).__name__}: {str(e)[:200]}")
+            pending = [i for i in pending if results[i] is None]
+            if broken:
+                log.append(f"worker pool broke (round {start}, attempt {attempt}); {len(pending)} jobs re-run without numerics")
+                numerics_off.update(pending)
+        for i in pending:
+            results[i] = err(i, "worker process died repeatedly")
     return results
 
 
